@@ -84,7 +84,14 @@ def run(ctx: Context) -> None:
         ok = bool(td) and bool(loops) and td[0].lineno > loops[0].end_lineno and isinstance(td[0].targets[0], ast.Tuple) and norm(td[0].targets[0].elts[0]) == "trailing_data"
         rt = [r for r in own_nodes(hh.node) if isinstance(r, ast.Return) and isinstance(r.value, ast.Tuple)]
         ok = ok and bool(rt) and norm(rt[0].value.elts[-1]) == "trailing_data"
-        rep.ob("C17.R2", fkey(tree, hh, "trailing-data"), ok, where(hh, td[0] if td else None), "trailing data is read from h11 after the response event and returned with the head")
+        if ok:
+            alts = [norm(a) for a in ctx.prov.expand(rt[0].value.elts[-1], hh, rt[0], depth=1)]
+            ok = alts == ["__unpack__(self._h11_state.trailing_data)[0]"]
+            if not ok:
+                td = td  # keep anchor
+                rep.note(f"{tree}: trailing data returned with the head has alternatives {alts}")
+        rep.ob("C17.R2", fkey(tree, hh, "trailing-data"), ok, where(hh, td[0] if td else None), "trailing data is read from h11 after the response event and returned with the head" if ok else
+               "the trailing data returned with the head is not, on every path, what h11 had consumed past the head (bytes that arrived with the head are dropped from the handed-over stream)")
         # R3
         tf = N.func("http_proxy", "AsyncTunnelHTTPConnection.handle_async_request")
         tls = [c for c in own_nodes(tf.node) if isinstance(c, ast.Call) and isinstance(c.func, ast.Attribute) and c.func.attr == "start_tls"]
